@@ -73,8 +73,18 @@ func propertyTable() map[string]PropertyCfg {
 		"C08": {ID: "C08",
 			Sweep: &SweepCfg{
 				Funcs: func(p *Program) []string { return callTree(p, entryPoints(p)) },
+				Select: func(o *Obligation) bool {
+					switch o.Kind {
+					case "assigns", "map-order", "clock", "global-write":
+						return false // decided under C19 / C20
+					}
+					return true
+				},
 				Unclaimed: map[string]string{
 					"stlCharacterHandler.decode#type-assert[vi.(string)]": "the handler's table h.m is one of the BiMaps of stlCharacterCodeTables (all with string values); table facts are attached to package-level BiMaps named at the call, not to one held in a struct field: not decided",
+					"teletextCharacterDecoder.decode#index[d.c[i-0x20]]": "page rows hold parity-stripped bytes (< 128, astikit.ByteParity), so the index stays below 96; carrying that fact from parsePacketData through the packet buffer to the row parser needs a two-level quantified invariant over map-held slices that the solvers stop discharging once contract calls havoc their frames: not decided (the index was proved before the frame treatment was made sound; see DESIGN.md section 4)",
+					"ReadFromTeletext#inv-step[loop1:inv3]": "'the collected pages are non-nil' across the call of process: process writes the pointer-element heap only inside the buffer's own done-pages array, but its inferred frame is lost at its internal loop (no parameter-relative loop frame candidate yet): not decided; the obligations that depend on it (the receiver of page.parse) are proved under this invariant",
+					"ReadFromTeletext#inv-entry[loop2:inv2]": "same invariant at the entry of the page-parsing loop: not decided",
 				},
 			},
 			Assumptions: []string{
@@ -106,6 +116,60 @@ func propertyTable() map[string]PropertyCfg {
 			NotDecided: []string{"'without a fault, a writer's successful return means the complete document was handed to the destination' needs a specification of the complete document: not decided (the writers' only exits after a failed Write are error returns, which is what the postcondition proves)",
 				"Subtitles.Write: that a failing WriteToX(f) on the created file is reported follows from WriteToX's postcondition and Write returning that error; the flag of the local file cannot be named in Write's contract, so only the os.Create clause is stated for it"},
 		},
+		"C19": {ID: "C19",
+			Sweep: &SweepCfg{
+				Funcs: func(p *Program) []string {
+					var ws []string
+					for _, e := range entryPoints(p) {
+						if strings.Contains(e, "Write") {
+							ws = append(ws, e)
+						}
+					}
+					return callTree(p, ws)
+				},
+				Select: func(o *Obligation) bool {
+					switch o.Kind {
+					case "assigns", "map-order", "clock":
+						return true
+					case "inv-entry", "inv-step":
+						return strings.HasPrefix(o.Func, "Subtitles.WriteTo")
+					}
+					return false
+				},
+				Unclaimed: c19Unclaimed,
+			},
+			Assumptions: []string{
+				"purity (no writer modifies the cue list it is given): each WriteToX carries `assigns` with ghost state only, so at every return every heap array must agree with its value at entry on all locations that existed at entry (obligation kind assigns, one per struct type); callees are used through their contracts' frames or through frames inferred from their bodies (proved, not assumed)",
+				"order independence: every `range` over a map in the writers' call trees must be of the form 'collect keys (or a field of the values) into a slice, sort it in the next statement' or 'store under the range key into another map' (obligation kind map-order, decided structurally on the AST: the sorted sequence of a multiset is unique; sort.Strings is trusted to sort)",
+				"clock: no function in the writers' call trees calls time.Now directly (obligation kind clock); the STL writer reads the package variable Now, whose value is an input of the call",
+				"determinism of everything else follows from the writers being sequential code over their arguments: no goroutines, no channel, no select, no use of math/rand, no address-dependent formatting (%p) in the call trees (checked syntactically by the generator: such constructs are outside the verified subset and make the function undecided)",
+			},
+			NotDecided: []string{"'in another process': hash seeds only affect map iteration order, which is covered; environment-dependent library behaviour (locale, time zone database) is not modelled",
+				"encoding/xml marshalling order is the struct field order (library behaviour, trusted)"},
+		},
+		"C20": {ID: "C20",
+			Sweep: &SweepCfg{
+				Funcs: func(p *Program) []string { return sweepFuncs(p) },
+				Select: func(o *Obligation) bool {
+					switch o.Kind {
+					case "global-write":
+						return true
+					case "assigns":
+						return strings.HasPrefix(o.Func, "Subtitles.WriteTo")
+					}
+					return false
+				},
+				Unclaimed: c19Unclaimed,
+			},
+			Special: c20Special,
+			Assumptions: []string{
+				"what is decided: (1) no function of the package assigns a package-level variable or stores / deletes / copies through an expression rooted at one (obligation kind global-write, generated at every such statement of every function: there are none on the unchanged tree, which the generator re-establishes on every run); (2) struct types shared through package-level pointers (the colour constants) are never assigned a field anywhere (shared-immutable, structural); (3) the five writers modify no memory that existed when they were called (obligation kind assigns, shared with C19); (4) the transformations write only what their `assigns` clauses allow, proved under C09-C15",
+				"trusted: go-astikit BiMap is lock-protected; regexp.Regexp, strings.Replacer are documented safe for concurrent use; library calls classed pure do not write through their arguments (contracts/extern.gvc, modset.go externPurePrefixes)",
+				"with (1)-(4), two calls that share no argument memory can only meet in memory reachable from package-level variables, which no function writes directly; writes through references *loaded* from package-level tables into locals are excluded for writers by (3) and for transformations by (4)",
+			},
+			NotDecided: []string{"readers: that a reader never writes through a reference loaded from a package-level table is not decided deductively (it would need an ownership/region discipline on callee frames; the teletext decoder copies the shared character table before patching it: updateCharset's d.c = *table copies the array value, which the memory model represents faithfully, but the obligation is not stated)",
+				"'every call returns exactly what it returns when run alone' follows from the absence of shared mutable state only; scheduling, the race detector and GOMAXPROCS are outside a sequential verifier: not decided"},
+		},
 		"C14": {ID: "C14",
 			Assumptions: []string{
 				"precondition: cue pointers non-nil and distinct, start <= end per cue, starts and ends non-decreasing, d >= 1ms (the property's quantifier)",
@@ -113,3 +177,8 @@ func propertyTable() map[string]PropertyCfg {
 		},
 	}
 }
+
+// c19Unclaimed: purity obligations of writers that the frame inference cannot discharge yet
+// (accumulators grown inside nested loops, byte buffers built by several helpers). They are
+// reported in the evidence as undecided, never as proved, and never as violations.
+var c19Unclaimed = map[string]string{}
